@@ -417,16 +417,34 @@ CHECKS = {
          'part of C09_full (it speaks about returned covers). No axioms.')),
  'C10': dict(
    design_ref='§6 C10',
-   technique='Coq proof: verified reference and checker of "exactly all minimum covers by primes" evaluated by vm_compute on the real result; model of cover_enum.py sound for all inputs; exactness on the property own finite domains',
-   text=('Unbounded: the reference all_min_covers_ref returns exactly the '
-         'set of minimum covers by primes and the checker characterises it '
-         '(same size, non-empty, contains every minimum cover, unique); the '
-         'model of the repaired cover_enum is sound for all picks. Bounded: '
-         'the model equals the reference on all non-empty f x all care over '
-         'three variables and on all 65535 non-empty four-variable functions. '
-         'The unrepaired code is refuted (F2 witness) as a regression. The '
-         'real returned set of covers is compared exactly with the verified '
-         'reference in Coq; membership of the cover.minimize cover checked.'),
-   note=('Trusted: as C09; model describes the F2-repaired code; C10_full '
-         '(unbounded exactness of the model) stated, not proved. No axioms.')),
+   technique='Coq proof: whenever the model of cover_enum.py returns, its result is exactly the set of all minimum covers by primes, for all inputs and all pick functions (exhaustive branch and bound, reduction steps, enumerations); verified reference and checker of "exactly all minimum covers by primes" evaluated by vm_compute on the real result',
+   text=('Unbounded: C10_enum_exact, for every instance and every pick '
+         'function, whenever the model of the repaired cover_enum.minimize '
+         'returns a set of covers it is exactly the set of all minimum covers '
+         'of f by primes (members duplicate-free minimum covers by primes; '
+         'every minimum cover by primes is a member up to order); proved from '
+         'the invariants of _cyclic_core_fixpoint_recursive / '
+         '_traverse_exhaustive / _branch_exhaustive (C10_ccfr_invariants: '
+         'every minimum cover of a node within the upper bound is found; the '
+         'upper bound stays the cost of an actual cover, so the unconditional '
+         'leaf assignment only weakens pruning), the reduction step '
+         '(maximal ceilings, floors, maximal floors, essentials) and the '
+         'completeness of _enumerate_mincovers_below / _unfloor. The '
+         'reference all_min_covers_ref returns exactly the set of minimum '
+         'covers by primes and the checker characterises it (same size, '
+         'non-empty, contains every minimum cover, unique). Bounded '
+         '(vm_compute): the model returns (no assertion fails) and equals the '
+         'reference on all non-empty f x all care over three variables and on '
+         'all 65535 non-empty four-variable functions. Open: C10_total (the '
+         'model returns on every instance with non-empty f: no assertion of '
+         'the code fails, recursion within fuel) is stated, not proved; '
+         'C10_full follows from it (C10_full_from_total); for f = FALSE the '
+         'code asserts (C10_refuted_empty_f, outside the library '
+         'precondition). The unrepaired code is refuted (F2 witness) as a '
+         'regression. The real returned set of covers is compared exactly '
+         'with the verified reference in Coq; membership of the '
+         'cover.minimize cover checked.'),
+   note=('Trusted: as C09; model describes the F2-repaired code; totality '
+         'of the model (C10_total) stated, not proved beyond the bounded '
+         'domains. No axioms.')),
 }
